@@ -90,7 +90,14 @@ func NewGasDriver(notary bool, n int) *GasDriver {
 		add(gasOp{kind: "cheque", amt: 1, signer: "AL"}, gasOp{kind: "cheque", amt: 3, signer: "AL"}, gasOp{kind: "cheque", amt: 3, signer: "S"}, gasOp{kind: "cheque", amt: 3, signer: "U"},
 			gasOp{kind: "cheque", amt: 2 * maxDeposit, signer: "AL"},
 			gasOp{kind: "setFee", amt: 0, signer: "AL"}, gasOp{kind: "setFee", amt: 2, signer: "AL"}, gasOp{kind: "setFee", amt: 2, signer: "S"}, gasOp{kind: "candRm", signer: "AL"})
-	} else {
+	}
+	if notary && n/2+1 != n*2/3+1 {
+		// the committee-majority account and a single member are not the Alphabet (2/3+1) account
+		for _, sg := range []string{"CM", "M0"} {
+			add(gasOp{kind: "cheque", amt: 3, signer: sg}, gasOp{kind: "setFee", amt: 2, signer: sg}, gasOp{kind: "candRm", signer: sg})
+		}
+	}
+	if !(notary || n == 1) {
 		// without Notary and with several keys every Alphabet decision is vote-collected: one op per key
 		for k, sg := range []string{"AL", "I1", "I2", "I3"}[:min(n, 4)] {
 			add(gasOp{kind: "cheque", amt: 3, signer: sg})
@@ -193,6 +200,10 @@ func (d *GasDriver) Step(x *Exec, n *Node, i int) StepResult {
 		} else {
 			signer = d.ir[0].Hash
 		}
+	case "CM":
+		signer = w.Comm
+	case "M0":
+		signer = w.Members[0].Hash
 	case "I1", "I2", "I3":
 		voter = int(o.signer[1] - '0')
 		signer = d.ir[voter].Hash
@@ -225,6 +236,7 @@ func (d *GasDriver) Step(x *Exec, n *Node, i int) StepResult {
 	}
 	gx := func(b []byte) any { return NX(b) }
 	expHalt := true
+	freeOutcome := false
 	var expRet any
 	var expN []Notif
 	var scr []byte
@@ -273,7 +285,10 @@ func (d *GasDriver) Step(x *Exec, n *Node, i int) StepResult {
 			}
 		}
 		total := m.fee * int64(len(payees))
-		if o.signer != "U" || o.amt < 0 || o.amt > 9000 || total > m.gasU {
+		// the statement bounds deposits (0 < amount <= 9000 GAS), not withdrawal requests: whether a request for
+		// 0 or for more than 9000 GAS is refused is free, what an accepted one charges is not
+		freeOutcome = o.signer == "U" && (o.amt == 0 || o.amt > 9000) && total <= m.gasU
+		if o.signer != "U" || o.amt < 0 || total > m.gasU {
 			expHalt = false
 		} else {
 			nm.gasU -= total
@@ -326,7 +341,7 @@ func (d *GasDriver) Step(x *Exec, n *Node, i int) StepResult {
 		}
 	case "candRm":
 		scr = Script(h, "innerRingCandidateRemove", d.x.Pub())
-		if o.signer == "S" || o.signer == "U" {
+		if o.signer == "S" || o.signer == "U" || o.signer == "CM" || o.signer == "M0" {
 			expHalt = false
 		} else if o.signer == "X" || decided("candrm") {
 			nm.cand = false
@@ -334,7 +349,7 @@ func (d *GasDriver) Step(x *Exec, n *Node, i int) StepResult {
 	}
 	obs, nn := x.Do(n, Call{Script: scr, Signers: []util.Uint160{signer}, Label: d.OpName(n, i)})
 	diff := DiffDumps(w.FullDump(n.L), w.FullDump(nn.L))
-	if obs.Halt != expHalt {
+	if obs.Halt != expHalt && !(freeOutcome && !obs.Halt) {
 		return viol("outcome", fmt.Sprintf("model expects halt=%v, contract halt=%v fault=%q", expHalt, obs.Halt, obs.Fault))
 	}
 	if !obs.Halt {
@@ -405,6 +420,8 @@ type emitCase struct {
 	Index  int    // Alphabet contract index
 	IR     int    // Inner Ring size
 	G      int64
+	NEO    int64  // NEO the contract holds (emit claims the GAS it generated first)
+	Wait   uint32 // blocks between funding and emit
 	Signer string // own other alpha stranger
 	Target string // accept: proxy processing alphabet
 	Token  string // accept: GAS NEO fake
@@ -419,7 +436,7 @@ type EmitGrid struct {
 func NewEmitGrid() *EmitGrid     { return &EmitGrid{} }
 func (d *EmitGrid) Name() string { return "alphabet-emit" }
 func (d *EmitGrid) Rule() string {
-	return "emit: Alphabet contract index {0,2} x Inner Ring size 1..7 x contract GAS g in [0,256] (quick) / [0,4096] (thorough) plus 10^k, 10^k+-1, 2^k+-1 up to 10^12 x signer {own node, other node, Alphabet multisig, stranger}; acceptance: {Proxy, Processing, Alphabet} x {GAS, NEO, non-GAS contract}; non-trivial = emit succeeded with g >= 2 or a payment was judged; distinct by case"
+	return "emit: Alphabet contract index {0,2} x Inner Ring size 1..7 x contract GAS g in [0,256] (quick) / [0,4096] (thorough) plus 10^k, 10^k+-1, 2^k+-1 up to 10^12 x signer {own node, other node, Alphabet multisig, stranger}, plus contracts holding NEO {1,100,1000} for {1,50} blocks (g = GAS held + GAS claimed by emit itself); acceptance: {Proxy, Processing, Alphabet} x {GAS, NEO, non-GAS contract}; non-trivial = emit succeeded with g >= 2 or a payment was judged; distinct by case"
 }
 
 func (d *EmitGrid) Build() *World {
@@ -452,6 +469,9 @@ func (d *EmitGrid) Cases(tier string) []GridCase {
 	var out []GridCase
 	add := func(c emitCase) {
 		n := fmt.Sprintf("emit index=%d ir=%d g=%d signer=%s", c.Index, c.IR, c.G, c.Signer)
+		if c.NEO > 0 {
+			n += fmt.Sprintf(" neo=%d wait=%d", c.NEO, c.Wait)
+		}
 		if c.Kind == "accept" {
 			n = fmt.Sprintf("accept target=%s token=%s", c.Target, c.Token)
 		}
@@ -485,6 +505,17 @@ func (d *EmitGrid) Cases(tier string) []GridCase {
 				add(emitCase{Kind: "emit", Index: idx, IR: ir, G: 1000, Signer: sg})
 			}
 		}
+	}
+	// the documented way of working: the contract holds NEO, and emit first claims the GAS it generated
+	for _, ir := range []int{1, 2, 3, 7} {
+		for _, g := range []int64{0, 1, 7, 1000, 12345} {
+			for _, neo := range []int64{1, 100, 1000} {
+				for _, wt := range []uint32{1, 50} {
+					add(emitCase{Kind: "emit", Index: 0, IR: ir, G: g, NEO: neo, Wait: wt, Signer: "own"})
+				}
+			}
+		}
+		add(emitCase{Kind: "emit", Index: 0, IR: ir, G: 1000, NEO: 100, Wait: 50, Signer: "stranger"})
 	}
 	for ir := 1; ir <= 3; ir++ {
 		for _, sg := range []string{"wrapped", "other", "alpha", "stranger"} {
@@ -550,6 +581,11 @@ func (d *EmitGrid) Eval(x *Exec, root *Node, gc GridCase) GridResult {
 			hpanic("fund alphabet contract: %v %s", o.Stack, o.Fault)
 		}
 	}
+	if c.NEO > 0 {
+		if o := do("give the Alphabet contract NEO", Script(w.NeoHash, "transfer", d.funder.Hash, al, c.NEO, nil), 0, d.funder.Hash); !o.Halt || !Same(o.Ret0(), "i1") {
+			hpanic("NEO to the alphabet contract: %v %s", o.Stack, o.Fault)
+		}
+	}
 	var signer util.Uint160
 	switch c.Signer {
 	case "own":
@@ -573,16 +609,36 @@ func (d *EmitGrid) Eval(x *Exec, root *Node, gc GridCase) GridResult {
 	if gasB(before, al) != c.G {
 		hpanic("alphabet contract holds %d, wanted %d", gasB(before, al), c.G)
 	}
-	o := do("emit", Script(al, "emit"), 1, signer)
+	where["neo"] = c.NEO > 0
+	supply := func(n *Node) int64 {
+		r := w.Read(n.L, n.H, n.TS, w.GasHash, "totalSupply")
+		v, _ := AsInt(r.Ret0())
+		return v.Int64()
+	}
+	sB := supply(before)
+	wait := c.Wait
+	if wait == 0 {
+		wait = 1
+	}
+	o := do("emit", Script(al, "emit"), wait, signer)
 	after := cur
+	// what the contract has to split: its GAS plus whatever its NEO generated (claimed by emit itself, visible
+	// as growth of the GAS supply over this one invocation)
+	claimed := supply(after) - sB
+	if c.NEO == 0 && claimed != 0 || claimed < 0 {
+		hpanic("GAS supply moved by %d over an emit without NEO", claimed)
+	}
+	c.G += claimed
 	wantOK := c.Signer == "own" && c.G >= 2 && c.Index < 4
-	if o.Halt != wantOK {
+	// with nothing to split (g < 2) the statement fixes no outcome: floor(1/2) = 0 to everybody is as good as a refusal
+	free := c.Signer == "own" && c.Index < 4 && c.G < 2
+	if o.Halt != wantOK && !free {
 		where["signer"], where["g"] = c.Signer, c.G
 		vs = append(vs, Viol("emit-outcome", fmt.Sprintf("%s: halt=%v fault=%q, expected success=%v", gc.Name, o.Halt, o.Fault, wantOK), where))
 		return GridResult{Outcome: "emit-wrong-outcome", Nontrivial: true, V: vs}
 	}
 	if !o.Halt {
-		if df := DiffDumps(w.FullDump(before.L), w.FullDump(after.L)); len(df) > 0 || gasB(after, al) != c.G || gasB(after, proxy) != pB {
+		if df := DiffDumps(w.FullDump(before.L), w.FullDump(after.L)); len(df) > 0 || gasB(after, al) != c.G-claimed || gasB(after, proxy) != pB {
 			vs = append(vs, Viol("refused-but-changed", fmt.Sprintf("a refused emit moved something: %v", df), where))
 		}
 		return GridResult{Outcome: "emit-refused", Nontrivial: false, V: vs}
